@@ -175,6 +175,7 @@ Definition dstep (rs : list bs) (o : sx) : list bs * sx :=
         else if is "fift" then (rs, to_fift_bs_sx s)
         else if is "bin" then (rs, SBits (abs s))
         else if is "topup" then (rs, out_of SBytes (top_upped s))
+        else if is "hash" then (rs, SA "ok")   (* oracle on the implementation only *)
         else (rs, sx_err "bad dop i")
     | [SN i; SN j] =>
         let s := reg_get rs i in
